@@ -34,6 +34,12 @@ Bad == <<<<>>, <<"-i", "$IN">>, <<"-i", "$IN", "-o", "$OUT">>, <<"-o", "$OUT", "
           <<"-i", "$MISSING", "-o", "$OUT", "-t", "bash">>, <<"-i", "$INDIR", "-o", "$OUT", "-t", "bash">>, <<"-i", "$IN", "-o", "$NOOUT", "-t", "bash">>, <<"-i", "$IN", "-o", "$OUTFILE", "-t", "bash">>,
           <<"-i", "$MISSING", "-i", "$IN", "-o", "$OUT", "-t", "bash">>, <<"-i", "$IN", "-i", "$IN", "-o", "$OUT", "-o", "$OUT", "-t", "batch">>, <<"--in", "$IN", "--out", "$OUT", "--type", "bash", "--type", "batch">>,
           <<"-I", "$IN", "-o", "$OUT", "-t", "bash">>, <<"-i", "$IN", "-o", "$OUT", "-t", "Bash">>, <<"-i", "$IN", "-o", "$OUT", "-t", "">>, <<"-i", "$IN", "-o", "$OUT", "-t", "bash", "-t", "bash", "-t", "bash">>>>
+\* programs with imports (a local file with globals and import-time code + std; an imported file with a type error) for every target list, in two option orders
+RECURSIVE Rev(_)
+Rev(q) == IF q = <<>> THEN <<>> ELSE Rev(Tail(q)) \o <<q[1]>>
+ImpCases == {Mk("C19/imp/" \o kd \o "/" \o nm \o "/" \o st \o "/" \o ToString(i) \o (IF fwd THEN "" ELSE "r"),
+                Flat(LET ps == <<<<"-i", "$IN">>, <<"-o", "$OUT">>>> \o [j \in 1..Len(TargetLists[i]) |-> <<"-t", TargetLists[i][j]>>] IN IF fwd THEN ps ELSE Rev(ps)), nm, kd, st, "file", "dir")
+             : kd \in {"okimp", "impbad"}, nm \in {"p.tsh", "sub/dir/q.tsh"}, st \in {"empty", "older"}, i \in 1..Len(TargetLists), fwd \in BOOLEAN}
 BadCases == {Mk("C19/bad/" \o ToString(i) \o "/" \o st, Bad[i], "p.tsh", "ok", st, "file", "dir") : i \in 1..Len(Bad), st \in {"empty", "older"}}
-ASSUME ndJsonSerialize("fam.ndjson", SetToSeq(OrderCases \cup NameCases \cup MoreNameCases \cup BadCases))
+ASSUME ndJsonSerialize("fam.ndjson", SetToSeq(OrderCases \cup NameCases \cup MoreNameCases \cup BadCases \cup ImpCases))
 =============================================================================
